@@ -7,9 +7,11 @@
      mismatches : an operation whose invocations the model cannot reproduce (broken tie), constants that differ;
      failures   : the observed invocations judged directly against the clauses of the property (bytes compared with
                   what the peer sent / received) -- independent of the Coq model."""
+import concurrent.futures
 import os
 import random
 import re
+import time
 import zlib
 import common
 import driver
@@ -378,7 +380,7 @@ def gen_ebadf(rng, sid):
 
 def scenarios(ctx):
     rng = ctx.rng
-    n = 90 if ctx.tier == "quick" else 1200
+    n = 100 if ctx.tier == "quick" else 1200
     out = [gen_ebadf(rng, 100000 + k) for k in range(6)]
     for i in range(n):
         r = i % 10
@@ -608,22 +610,30 @@ def coq_case(s, o, ev):
 
 
 def model_check(cases):
-    """cases: list of (cfg, op, rs, ob, stop, close). returns list of bools (None if evaluation failed), raw"""
-    res = []
-    B = 60
-    raw_all = ""
-    for k in range(0, len(cases), B):
+    """cases: list of (cfg, op, rs, ob, stop, close+fderr). returns list of verdicts (1 reproduced, 0 not reproducible,
+    -1 search cut off by its node budget, None evaluation failed / timed out), raw"""
+    B = 30
+    parts = [cases[k:k + B] for k in range(0, len(cases), B)]
+
+    def one(idx_part):
+        idx, part = idx_part
         body = []
-        part = cases[k:k + B]
         for j, (cfg, opt, rs, ob, st, cl) in enumerate(part):
             body.append("Definition c%d := explain_op %s %s %s %s %s %s." % (j, cfg, st, cl, opt, rs, ob))
         body.append("Eval vm_compute in [%s]." % "; ".join("c%d" % j for j in range(len(part))))
-        ok, vals, raw = driver.coq_eval("c14_cases_%d" % (k // B), ["Word", "IoOp"], "\n".join(body) + "\n", timeout=300)
+        ok, vals, raw = driver.coq_eval("c14_cases_%d" % idx, ["Word", "IoOp"], "\n".join(body) + "\n", timeout=120)
         if not ok or len(vals) != 1:
-            res += [None] * len(part)
+            return [None] * len(part), raw
+        v = driver.ints(vals[0])
+        if len(v) != len(part):
+            return [None] * len(part), raw
+        return v, ""
+
+    res, raw_all = [], ""
+    with concurrent.futures.ThreadPoolExecutor(max_workers=8) as ex:
+        for v, raw in ex.map(one, list(enumerate(parts))):
+            res += v
             raw_all += raw
-        else:
-            res += [x == "true" for x in re.findall(r"true|false", vals[0])]
     return res, raw_all
 
 
@@ -658,13 +668,21 @@ def run_all(ctx, scns):
     if exe is None:
         return None, msg
     patfile, base = pattern_file()
-    res, consts = run_harness(exe, patfile, scns)
+    W = 6
+    groups = [scns[k::W] for k in range(W)]
+    res, consts = {}, []
+    with concurrent.futures.ThreadPoolExecutor(max_workers=W) as ex:
+        for r, c in ex.map(lambda g: run_harness(exe, patfile, g) if g else ({}, []), groups):
+            res.update(r)
+            consts += c
     return (res, consts, base), ""
 
 
 def correspond(ctx):
     scns = scenarios(ctx)
+    t0 = time.time()
     got, msg = run_all(ctx, scns)
+    th = time.time() - t0
     if got is None:
         return {"mismatches": [{"what": "harness build failed", "detail": msg}], "failures": [], "evaluations": 0}
     res, consts, base = got
@@ -711,19 +729,24 @@ def correspond(ctx):
             cases.append(c)
             owners.append((s, i))
             sigs.add((c[1], c[2], c[3]))
+    t1 = time.time()
     verdicts, raw = model_check(cases)
+    t2 = time.time()
     nbad = 0
     for v, c, (s, i) in zip(verdicts, cases, owners):
-        if v is None:
-            mism.append({"what": "model evaluation failed (coqc)", "detail": raw[-1500:]})
-            break
-        if not v:
-            nbad += 1
-            if nbad <= 6:
-                mism.append({"what": "scenario %d op %d: the model cannot reproduce the observed handler invocations from the "
-                                     "recorded system call results" % (s.sid, i),
-                             "detail": {"op": c[1], "syscalls": c[2][:600], "observed": c[3][:600],
-                                        "model_without_async_events": model_predict(c), "script": s.lines}})
+        if v == 1:
+            continue
+        nbad += 1
+        if nbad <= 6:
+            what = {None: "the model evaluation failed or timed out for the batch containing",
+                    0: "the model cannot reproduce (for any placement of stop / timer / cleanup events) the observed handler "
+                       "invocations of",
+                    -1: "the model's search was cut off by its node budget before reproducing the observed handler "
+                        "invocations of"}[v]
+            mism.append({"what": "%s scenario %d op %d, given the recorded system call results" % (what, s.sid, i),
+                         "detail": {"op": c[1], "syscalls": c[2][:600], "observed": c[3][:600],
+                                    "model_without_async_events": model_predict(c) if v is not None else raw[-800:],
+                                    "script": s.lines}})
     # one failure per clause and kind is enough for the report; keep the first of each key
     seen, uniq = set(), []
     for f in fails:
@@ -743,7 +766,8 @@ def correspond(ctx):
                     "the accepted bytes in order, done exactly once and last, never re-entered, completion in submission order, "
                     "barrier between, ECANCELED after close/stop, cleanup handler once after all handlers",
             "samples": samples, "distribution": dist, "mismatches": mism, "failures": uniq[:20],
-            "notes": ["%d operations could not be reproduced by the model" % nbad] if nbad else []}
+            "notes": (["%d operations could not be reproduced by the model" % nbad] if nbad else []) +
+                     ["harness %.0f s, model evaluation %.0f s" % (th, t2 - t1)]}
 
 
 def scn_meta(s):
